@@ -356,11 +356,12 @@ def fragsOf (rows : List (Nat × Row)) : List Nat := dedupNat (rows.map (fun p =
 inductive Op where
   /-- Dataset::write(Append): the new rows with their (fresh) addresses -/
   | append (new : List (Nat × Row))
-  /-- Dataset::delete(filter) -/
-  | delete (p : Expr)
-  /-- UpdateBuilder: the rows matching `p` are deleted and re-inserted with column `c` set, at the given addresses
-      (one per matching row, in scan order) -/
-  | update (c : Nat) (v : Cell) (p : Expr) (addrs : List Nat)
+  /-- Dataset::delete(filter): the rows the filter scan returned (`hit` = their addresses) are deleted.  The scan of a
+      delete / update uses the scalar indices like any other scan, so `hit` is what `scanIndexed` returns. -/
+  | delete (hit : List Nat)
+  /-- UpdateBuilder: the rows the filter scan returned are deleted and re-inserted with column `c` set, at the given
+      addresses (one per row, in scan order) -/
+  | update (c : Nat) (v : Cell) (hit : List Nat) (addrs : List Nat)
   /-- compact_files, one rewrite group: the live rows of the fragments `olds` move to the fragments `news`;
       `m` is the row address map handed to the index remapper (deleted physical rows map to `none`) -/
   | compact (olds news : List Nat) (m : List (Nat × Option Nat))
@@ -384,7 +385,7 @@ def freshFrags (s : St) (new : List (Nat × Row)) : Bool :=
 
 def St.appendRows (s : St) (new : List (Nat × Row)) : St := { s with rows := s.rows ++ new }
 
-def St.deleteWhere (s : St) (p : Expr) : St := { s with rows := s.rows.filter (fun q => !isTrue p q.2) }
+def St.deleteRows (s : St) (hit : List Nat) : St := { s with rows := s.rows.filter (fun q => !hit.contains q.1) }
 
 /-- every live row of an old fragment is moved into a new fragment -/
 def ckMoved (s : St) (olds news : List Nat) (m : List (Nat × Option Nat)) : Bool :=
@@ -442,11 +443,11 @@ def St.optimize (s : St) : St := { s with idxs := s.idxs.map (Idx.optimize s.row
 /-- one operation; `none` when a side condition on the supplied addresses fails -/
 def step (s : St) : Op → Option St
   | .append new => if freshFrags s new then some (s.appendRows new) else none
-  | .delete p => some (s.deleteWhere p)
-  | .update c v p addrs =>
-    let hit := s.rows.filter (fun q => isTrue p q.2)
-    let new := List.zipWith (fun a q => (a, setCell q.2 c v)) addrs hit
-    if addrs.length == hit.length && freshFrags (s.deleteWhere p) new then some ((s.deleteWhere p).appendRows new)
+  | .delete hit => some (s.deleteRows hit)
+  | .update c v hit addrs =>
+    let old := s.rows.filter (fun q => hit.contains q.1)
+    let new := List.zipWith (fun a q => (a, setCell q.2 c v)) addrs old
+    if addrs.length == old.length && freshFrags (s.deleteRows hit) new then some ((s.deleteRows hit).appendRows new)
     else none
   | .compact olds news m => if compactOk s olds news m then some (s.compact olds news m) else none
   | .index c k => some (s.createIndex c k)
